@@ -524,6 +524,23 @@ def l_chain(E, args, kw, st, node):
     yield st, IterView("chain", parts)
 
 
+def l_dict_fromkeys(E, args, kw, st, node):
+    """dict.fromkeys(xs) used as an order-preserving de-duplication: modelled as the list of its keys - same members as xs, no repeats,
+    not longer than xs (the relative order of first occurrences is not axiomatised)"""
+    if len(args) != 1:
+        raise OutsideSubset("dict.fromkeys with a value")
+    s = seq_of(E, args[0], st)
+    r = E.fresh(s.ty, "fromkeys")
+    x = z3.Const(f"x!fk{next(E.n)}", E.U.sort(s.ty.elem))
+    i, j = z3.Ints(f"i!fk{next(E.n)} j!fk{next(E.n)}")
+    n = Q.Length(r.t)
+    st.assume(z3.ForAll([x], E.seq_member(r.t, x) == E.seq_member(s.t, x)))
+    st.assume(z3.ForAll([i, j], z3.Implies(z3.And(0 <= i, i < j, j < n), Q.At(r.t, i) != Q.At(r.t, j))))
+    st.assume(n <= Q.Length(s.t))
+    E.assumptions.add("dict.fromkeys(xs): the list of distinct members of xs (order of first occurrences not axiomatised)")
+    yield st, r
+
+
 def l_chain_from_iterable(E, args, kw, st, node):
     yield st, IterView("chain*", args[0])
 
@@ -558,7 +575,7 @@ def l_tomlkit_dump(E, args, kw, st, node):
     yield from handle_method(E, fh, "write", [text], {}, st, node)
 
 
-LIBFUNCS = {"tomlkit.api.dump": l_tomlkit_dump, "typing.cast": l_cast, "itertools.chain": l_chain, "itertools.chain.from_iterable": l_chain_from_iterable,
+LIBFUNCS = {"tomlkit.api.dump": l_tomlkit_dump, "typing.cast": l_cast, "itertools.chain": l_chain, "itertools.chain.from_iterable": l_chain_from_iterable, "builtins.dict.fromkeys": l_dict_fromkeys,
             "dataclasses.replace": l_replace}
 
 
@@ -925,6 +942,8 @@ def list_method(E, recv, name, lv, args, kw, st, node):
     elif name == "clear":
         E.mutate(st, lv, recv, SVal(Q.Empty(recv.t.sort()), ty))
         yield st, SVal(None, NONE)
+    elif name == "keys" and not args:
+        yield st, recv          # the key view of a dict.fromkeys(...) de-duplication (modelled as the list of keys)
     elif name in ("sort", "reverse"):
         E.mutate(st, lv, recv, _permutation_of(E, SVal(recv.t, ty), st, "sorted_in_place"))
         yield st, SVal(None, NONE)
